@@ -194,8 +194,15 @@ def run_case(cs):
         h = H.new_hasher_for_hash_type(f)
         pos = 0
         pieces = 0
+        peek = rng.random() < 0.5
         while pos < n:
             step = rng.choice([1, 7, 64, 4096, 65536, MIB, n])
+            if peek and pieces in (0, 1, 3):
+                # a running digest is asked for in between (progress display): it is the digest of the prefix fed so
+                # far and must not freeze what the hasher answers later on
+                if h.string_digest() != refhash.digest(f, data[:pos]) and n <= 70000:
+                    cs.violation("digest-mismatch", {"kind": "digest-mismatch", "format": f, "entry": "streaming-prefix", "size_class": _size_class(n)}, {"prefix": pos})
+                cs.count("running_digests_taken")
             h.update(data[pos : pos + step])
             pos += step
             pieces += 1
